@@ -111,7 +111,8 @@ func (rp *runnablePacker[I, O, TOption]) toComposableRunnable() *composableRunna
 
 	i := func(ctx context.Context, input any, opts ...any) (output any, err error) {
 		in, ok := input.(I)
-		if !ok {
+		// (a nil interface value loses its static type when boxed into any: for an interface-typed I it is I's zero value)
+		if !ok && (input != nil || inputType.Kind() != reflect.Interface) {
 			panic(newUnexpectedInputTypeErr(inputType, reflect.TypeOf(input)))
 		}
 
@@ -446,6 +447,11 @@ func toGenericRunnable[I, O any](cr *composableRunnable, ctxWrapper func(ctx con
 		out, err := cr.i(ctx, input, toAnyList(opts)...)
 		if err != nil {
 			return output, err
+		}
+
+		// (a nil interface value is the zero value of an interface-typed O)
+		if out == nil && generic.TypeOf[O]().Kind() == reflect.Interface {
+			return output, nil
 		}
 
 		return out.(O), err
